@@ -146,9 +146,14 @@ func lxNewFilter(q string) (r lxFilterRes, hang bool) {
 	case r = <-ch:
 		return r, false
 	case <-time.After(lxTimeout):
+		lxHangs++
 		return r, true
 	}
 }
+
+// lxHangs counts calls that never returned: their goroutines are still running (and may spin
+// and allocate), so record mode stops after the event in which one occurred.
+var lxHangs int
 
 // lxParseProj parses q with a fresh parser and a match-everything filter (Parse panics
 // by contract when a fixed order needs a filter and none is passed).
@@ -173,6 +178,7 @@ func lxParseProj(q string) (r lxProjRes, hang bool) {
 	case r = <-ch:
 		return r, false
 	case <-time.After(lxTimeout):
+		lxHangs++
 		return r, true
 	}
 }
@@ -843,6 +849,11 @@ func lxRecord(out string, n int) error {
 			ev.Exprs++
 		}
 		ew.emit(&ev)
+		if lxHangs > 0 {
+			ew.close()
+			fmt.Fprintf(os.Stderr, "lexer record: stopped after a call that never returned (%d events)\n", ew.n)
+			os.Exit(0)
+		}
 	}
 	for i := 0; i < n; i++ {
 		judge("quoted", lxRandString(r), strconv.Quote)
